@@ -751,7 +751,7 @@ class Flattener:
                         target = ast.Attribute(value=ast.Name(id=owner, ctx=ast.Load()), attr=fn.id, ctx=ast.Load())
                     c2 = ast.Call(func=target, args=copy.deepcopy(call.args), keywords=copy.deepcopy(call.keywords))
                 arms.append((test, mk(c2)))
-            orelse: list[ast.stmt] = [ast.Raise(exc=ast.Call(func=ast.Name(id="TypeError", ctx=ast.Load()), args=[ast.Constant(value="'NoneType' object is not callable")], keywords=[]), cause=None)] if soft else [ast.Raise(exc=ast.Call(func=ast.Name(id="KeyError", ctx=ast.Load()), args=[copy.deepcopy(key)], keywords=[]), cause=None)]
+            orelse: list[ast.stmt] = [ast.Raise(exc=ast.Call(func=ast.Name(id="TypeError", ctx=ast.Load()), args=[ast.Constant(value="'NoneType' object is not callable")], keywords=[]), cause=None)] if soft else []  # (a hard lookup `TABLE[k]` stays where it is and raises KeyError there)
             if soft and call.func.id in guarded and arms:
                 # the guard `if f is None: <leave>` becomes the final else of the chain (and is dropped below)
                 orelse = copy.deepcopy(guarded[call.func.id].body)
